@@ -298,10 +298,15 @@ def tagInitInterestingObj (main : List StrClass) (builder : Option BuilderObj) (
 
 /-- `BeautifulSoup.__getstate__`/`__setstate__`: the builder object is pickled with the document when it is
     `picklable` (html.parser); otherwise only its class is kept and `__setstate__` instantiates it with default
-    arguments, i.e. with the class's `DEFAULT_STRING_CONTAINERS` (`dflt`). `__setstate__` then tests `elif not
-    self.builder:` — the truth value of the restored object, not `is None` — and replaces a FALSY builder by a fresh
-    `HTMLParserTreeBuilder()` (default table `htmlDflt`). The tree is then re-parsed with the resulting builder. -/
-def pickledStringContainersObj (picklable : Bool) (dflt htmlDflt : List (PStr × StrClass)) (b : BuilderObj) :
+    arguments, i.e. with the class's `DEFAULT_STRING_CONTAINERS` (`dflt`). `__setstate__` replaces the builder by a fresh
+    `HTMLParserTreeBuilder()` (default table `htmlDflt`) only when it `is None` (repaired, ca31e7d) — the truth value of
+    the restored object does not matter. The tree is then re-parsed with the resulting builder. -/
+def pickledStringContainersObj (picklable : Bool) (dflt _htmlDflt : List (PStr × StrClass)) (b : BuilderObj) :
+    Option (List (PStr × StrClass)) :=
+  if picklable then b.sc else builderStringContainers dflt .useDefault
+
+/-- the code before ca31e7d: `elif not self.builder:` — a FALSY builder object was replaced by the default one -/
+def pickledStringContainersObjOld (picklable : Bool) (dflt htmlDflt : List (PStr × StrClass)) (b : BuilderObj) :
     Option (List (PStr × StrClass)) :=
   if picklable then (if b.truthy then b.sc else builderStringContainers htmlDflt .useDefault)
   else builderStringContainers dflt .useDefault
